@@ -68,7 +68,7 @@ Theorem accept_step f st d a f' D st' :
   ainv c rootns pe root f st d -> tinv (fs_ph st) ->
   spec_apply root f a = Some f' -> dact_of f a = FOk D -> step_ok rootns st D -> room_ok c st D ->
   handle_d c o rootns st D = FOk st' ->
-  exists d', erase d' = fs_tree st' /\ rel ws f' d' /\ did d' = root /\ alive_d d' = true.
+  exists d', erase d' = fs_tree st' /\ rel ws f' d' /\ did d' = root /\ alive_d d' = true /\ nstep a d d'.
 Proof.
   intros HI Hph Hs HD Hok Hroom H.
   destruct a; cbn [dact_of] in HD; inversion HD; subst D; clear HD.
@@ -85,10 +85,10 @@ Proof.
   - cbn [spec_apply] in Hs. inversion Hs; subst f'. cbn [handle_d] in H. unfold handle_InsertNamespace in H.
     inversion H; subst st'. cbn [fs_tree]. exists d.
     split; [apply (ai_erase _ _ _ _ _ _ _ HI)|]. split; [apply (ai_rel _ _ _ _ _ _ _ HI)|].
-    split; [apply (ai_root _ _ _ _ _ _ _ HI)|apply (ai_alive _ _ _ _ _ _ _ HI)].
+    split; [apply (ai_root _ _ _ _ _ _ _ HI)|split; [apply (ai_alive _ _ _ _ _ _ _ HI)|intros n' x' Hx; now left]].
   - cbn [spec_apply] in Hs. inversion Hs; subst f'. cbn [handle_d] in H. inversion H; subst st'. exists d.
     split; [apply (ai_erase _ _ _ _ _ _ _ HI)|]. split; [apply (ai_rel _ _ _ _ _ _ _ HI)|].
-    split; [apply (ai_root _ _ _ _ _ _ _ HI)|apply (ai_alive _ _ _ _ _ _ _ HI)].
+    split; [apply (ai_root _ _ _ _ _ _ _ HI)|split; [apply (ai_alive _ _ _ _ _ _ _ HI)|intros n' x' Hx; now left]].
 Qed.
 
 (* the namespace environment and the printable names along the script (as PatcherProofs.script_ok,
@@ -151,7 +151,7 @@ Proof.
     cbn [run_ok] in Hro. rewrite decode_render in Hro.
     destruct (dact_of f a) as [D|e] eqn:ED; [|discriminate]. cbn [fbind] in E1. destruct Hro as (Hs & Hroom & Hr).
     assert (HI : ainv c rootns pe root f st d) by (constructor; assumption).
-    destruct (accept_step f st d a f1 D st1 HI Hph Hspec ED Hs Hroom E1) as (d1 & He1 & HR1 & Hid1 & Hal1).
+    destruct (accept_step f st d a f1 D st1 HI Hph Hspec ED Hs Hroom E1) as (d1 & He1 & HR1 & Hid1 & Hal1 & _).
     destruct (step_ph c o rootns st D st1 Hph Hs Hroom E1) as (Hph1 & _).
     apply (IH f1 st1 d1 gs' fT st'); auto.
     + eapply spec_apply_wf; eauto.
